@@ -515,6 +515,9 @@ def observe_stage(stage, d, res):
     """Observable effects (subset of seff tags 1..4) after the call."""
     tl = listing(d / 'tmp') or []
     o = {'raised': not res['ok'], 'error': res['error'], 'tmp_listing': tl, 'dir_listing': listing(d)}
+    o['cleanup_failed'] = (not res['ok']) and res['etype'] in ('OSError', 'FileNotFoundError', 'PermissionError') \
+        and '_clean_up' in res.get('tb', '')
+    o['inspector_error'] = (not res['ok']) and res['etype'] == 'RuntimeError' and res['msg_code'] is not None
     tags = set()
     if stage == 'stats':
         p = d / 'stats.h5'
@@ -548,7 +551,7 @@ def observe_stage(stage, d, res):
         o['accepted'] = p.exists() and accepts_transposed(p)
         if p.exists():
             tags.add(3)
-    if not tl:
+    if not tl and stage != 'selection':      # select_all_markers itself has no scratch of its own
         tags.add(4)
     o['tags'] = sorted(tags)
     return o
@@ -602,6 +605,13 @@ def stage_faults(ctx, rng, stage, tag, make_fn, k_of, workers_of, n_processors, 
                 if bad:
                     ctx.violation(f'{stage}: worker {w}/{k} of {target} {mode} {point} work: ' + '; '.join(bad),
                                   dict(rep, **{'class': f'c14-{stage}-failure-not-reported'}))
+                elif o['cleanup_failed']:
+                    # the finally block's _clean_up raced with a still-running sibling and its exception
+                    # replaced the inspector's (modelled: oracle clean_ok of Pool.run_stage_desc_c)
+                    ctx.dist('cleanup_race', f'{stage} {res["etype"]}')
+                    if w < len(codes) and codes[w] != faults.EXIT_CODE[mode]:
+                        ctx.violation(f'{stage}: worker {w} {mode} {point}: exit codes {codes}; expected code {faults.EXIT_CODE[mode]}',
+                                      dict(rep, **{'class': 'corr:Pool.exit_code_of'}), no_input=True)
                 elif (res['msg_code'] != faults.EXIT_CODE[mode] or res['etype'] != 'RuntimeError'
                       or (w < len(codes) and codes[w] != faults.EXIT_CODE[mode])):
                     ctx.violation(f'{stage}: worker {w} {mode} {point}: error {res["error"]}, exit codes {codes}; expected code '
@@ -613,20 +623,21 @@ def stage_faults(ctx, rng, stage, tag, make_fn, k_of, workers_of, n_processors, 
         verdicts = [0] * phases
         if plan is not None:
             verdicts[phase_idx] = code
-        cases.append((1402, [STAGE_INDEX[stage], verdicts]))
+        cases.append((1402, [STAGE_INDEX[stage], verdicts, not o['cleanup_failed']]))
     outs = ctx.model(cases)
     for (plan, o, rep, code), out in zip(runs, outs):
         if out[0] != 0:
             ctx.violation('model rejected the stage case', dict(rep, **{'class': 'corr:Pool.run_stage_desc'}), no_input=True)
             continue
-        tags_m, completed = out[1]
+        tags_m, completed, raised_by = out[1]
         exp = sorted(set(t for t in tags_m if t in (1, 2, 3, 4)))
         if stage in ('markers', 'transpose') or (stage == 'stats' and 3 in exp):
             exp = [t for t in exp if t != 2 or stage == 'stats']
-        if exp != o['tags'] or bool(completed) != (not o['raised']):
+        by_o = 0 if not o['raised'] else (2 if o['cleanup_failed'] else (1 if o['inspector_error'] else 9))
+        if exp != o['tags'] or bool(completed) != (not o['raised']) or raised_by != by_o:
             ctx.disagreements_checked += 1
-            ctx.violation(f'{stage} {plan}: observed effects {o["tags"]} raised={o["raised"]}; Pool.run_stage_desc predicts {exp} '
-                          f'completed={completed}; dir={o["dir_listing"]}',
+            ctx.violation(f'{stage} {plan}: observed effects {o["tags"]} raised={o["raised"]} by {by_o} ({o["error"]}); '
+                          f'Pool.run_stage_desc_c predicts {exp} completed={completed} raised by {raised_by}; dir={o["dir_listing"]}',
                           dict(rep, model=out[1], **{'class': 'corr:Pool.run_stage_desc'}), no_input=True)
         else:
             ctx.traces_validated += 1
@@ -681,7 +692,6 @@ def run(ctx):
         'a stage called with n_processors <= 1 that runs its work inline (statistics) has no worker and is not faulted',
         'directory listings are taken after all descendant processes have exited; fresh output directory per run',
     ]
-    thorough = not ctx.quick()
     pending = []
     # ---- V: mapping and statistics (list inspector), markers / mask (dict inspector)
     vb = ctx.scratch / 'virt'
@@ -738,48 +748,53 @@ def run(ctx):
     # ---- F: real faults
     if ctx.quick():
         mapping_faults(ctx, rng, 'q', n_cells=8, chunk_size=4, n_processors=2, workers=[0, 1])
+        rounds, wmax, nps = 1, 2, [2]
     else:
         mapping_faults(ctx, rng, 't2', n_cells=8, chunk_size=4, n_processors=2, workers=[0, 1], variants=2)
         mapping_faults(ctx, rng, 't3', n_cells=9, chunk_size=3, n_processors=2, workers=[0, 1, 2], variants=2)
         mapping_faults(ctx, rng, 't4', n_cells=12, chunk_size=3, n_processors=4, workers=[0, 1, 2, 3], variants=2)
-    fb = ctx.scratch / 'stagef'
-    fb.mkdir()
-    gt, genes, n_rows = reference_inputs(rng, fb, min_leaves=5, max_leaves=7, levels=2)
-    rat = max(3, n_rows // 6)
-    for npz in ([2] if ctx.quick() else [2, 3, 4]):
-        stage_faults(ctx, rng, 'stats', f'n{npz}', lambda d, npz=npz: stats_call(fb, d, gt, rat, npz),
-                     None, (lambda k: range(k)) if thorough else (lambda k: range(min(k, 2))), npz, phases=1,
-                     what=f'{n_rows} rows, {rat} at a time, tree {gt.shape_key()}')
-    if thorough:
+        mapping_faults(ctx, rng, 't1', n_cells=6, chunk_size=2, n_processors=1, workers=[0, 1, 2], variants=2)
+        rounds, wmax, nps = 3, 4, [2, 3, 4]
+    import scipy.sparse as sp
+    for rd in range(rounds):
+        fb = ctx.scratch / f'stagef{rd}'
+        fb.mkdir()
+        gt, genes, n_rows = reference_inputs(rng, fb, min_leaves=5, max_leaves=7, levels=2)
+        rat = max(3, n_rows // 6)
+        wk = lambda k: range(min(k, wmax))
+        for npz in nps:
+            stage_faults(ctx, rng, 'stats', f'{rd}n{npz}', lambda d, npz=npz: stats_call(fb, d, gt, rat, npz),
+                         None, wk, npz, phases=1, what=f'{n_rows} rows, {rat} at a time, tree {gt.shape_key()}')
         with quiet():
             stats_call(fb, fb, gt, 50, 1)()
-        for npz in (2, 3):
-            stage_faults(ctx, rng, 'pmask', f'n{npz}', lambda d, npz=npz: pmask_call(fb / 'stats.h5', d, npz),
-                         None, lambda k: range(min(k, 4)), npz, phases=1, what='p-value mask')
-            stage_faults(ctx, rng, 'markers', f'n{npz}', lambda d, npz=npz: markers_call(fb / 'stats.h5', d, npz),
-                         None, lambda k: range(min(k, 4)), npz, phases=3, fail_phase=0, what='reference markers, pair workers')
-        stage_faults(ctx, rng, 'markers', 'transp', lambda d: markers_call(fb / 'stats.h5', d, 2),
+        for npz in nps[:2]:
+            stage_faults(ctx, rng, 'pmask', f'{rd}n{npz}', lambda d, npz=npz: pmask_call(fb / 'stats.h5', d, npz),
+                         None, wk, npz, phases=1, what='p-value mask')
+            stage_faults(ctx, rng, 'markers', f'{rd}n{npz}', lambda d, npz=npz: markers_call(fb / 'stats.h5', d, npz),
+                         None, wk, npz, phases=3, fail_phase=0, what='reference markers, pair workers')
+        stage_faults(ctx, rng, 'markers', f'{rd}transp', lambda d: markers_call(fb / 'stats.h5', d, 2),
                      None, lambda k: range(min(k, 2)), 2, phases=3, fail_phase=('transpose', 1),
                      what='reference markers, transposition workers (first direction)')
         with quiet():
             markers_call(fb / 'stats.h5', fb, 2)()
             with h5py.File(fb / 'refm.h5', 'a') as f:
                 f.create_dataset('metadata', data=json.dumps({'precomputed_path': str(fb / 'stats.h5')}).encode('utf-8'))
-        for npz, cut in ((2, 1000), (3, 0)):
-            stage_faults(ctx, rng, 'selection', f'n{npz}', lambda d, npz=npz, cut=cut: selection_call(fb / 'refm.h5', genes, d, npz, cut),
-                         None, lambda k: range(min(k, 3)), npz, phases=1, what=f'query marker selection, behemoth cutoff {cut}')
+        for npz, cut in ((2, 1000), (3, 0))[:len(nps)]:
+            stage_faults(ctx, rng, 'selection', f'{rd}n{npz}',
+                         lambda d, npz=npz, cut=cut: selection_call(fb / 'refm.h5', genes, d, npz, cut),
+                         None, wk, npz, phases=1, what=f'query marker selection, behemoth cutoff {cut}')
         # parallel transposition of a generated CSR matrix
-        import scipy.sparse as sp
-        M = np.array([[rng.choice([0, 0, 1, 2, 3]) for _ in range(9)] for _ in range(14)], dtype=np.float32)
+        nr, nc = rng.randrange(10, 16), rng.randrange(6, 11)
+        M = np.array([[rng.choice([0, 0, 1, 2, 3]) for _ in range(nc)] for _ in range(nr)], dtype=np.float32)
         csr = sp.csr_matrix(M)
         with h5py.File(fb / 'csr.h5', 'w') as f:
             f.create_dataset('data', data=csr.data)
             f.create_dataset('indices', data=csr.indices)
             f.create_dataset('indptr', data=csr.indptr)
-        for npz in (2, 3):
-            stage_faults(ctx, rng, 'transpose', f'n{npz}', lambda d, npz=npz: transpose_call(fb / 'csr.h5', d, npz, 9),
-                         None, lambda k: range(min(k, 3)), npz, phases=1, what='parallel transposition 14x9')
-    shutil.rmtree(fb, ignore_errors=True)
+        for npz in nps[:2]:
+            stage_faults(ctx, rng, 'transpose', f'{rd}n{npz}', lambda d, npz=npz: transpose_call(fb / 'csr.h5', d, npz, nc),
+                         None, wk, npz, phases=1, what=f'parallel transposition {nr}x{nc}')
+        shutil.rmtree(fb, ignore_errors=True)
 
     # ---- P
     other_fail_points(ctx, rng, ctx.n(3, 12))
